@@ -14,6 +14,7 @@ var table = map[string]func(tier string) int{
 	"C08": checks.C08,
 	"C09": checks.C09,
 	"C10": checks.C10,
+	"C11": checks.C11,
 }
 
 func main() {
@@ -33,6 +34,9 @@ func main() {
 		fmt.Println("replaying", doc["property"], doc["key"])
 		checks.Replay(rep)
 		return
+	}
+	if os.Args[1] == "C11worker" {
+		os.Exit(checks.C11Worker(os.Args[2:]))
 	}
 	if os.Args[1] == "C08worker" {
 		os.Exit(checks.C08Worker(os.Args[2:]))
